@@ -56,8 +56,8 @@ def configs(tier):
     from mc.props import c10
     for name in RAWREF:
         kinds, opts, _, sigk = c10.RAW[name]
-        sps = ((['rn3', 'ud3', 'rn3wa'] if not thorough else FR.TENS) if 'T' in kinds else []) + \
-              ((['pw_rn2_2', 'pw_ud2_2'] if not thorough else FR.POW) if 'P' in kinds else [])
+        sps = ((['rn3', 'rn3wa'] if not thorough else FR.TENS) if 'T' in kinds else []) + \
+              ((['pw_ud2_2'] if not thorough else FR.POW) if 'P' in kinds else [])
         if name == 'proximal_huber':
             sps = [x for x in sps if x != 'rn3wa' and not x.startswith('pw_')]   # see Huber spec
         for sp in sps:
@@ -68,8 +68,8 @@ def configs(tier):
                                      'sigma': s, 'sk': sk})
     for kind in DER_KINDS:
         for b in DER_BASES:
-            for sp in (['rn3', 'ud3', 'rn3w2'] if not thorough else ['rn3', 'ud3', 'rn3w2',
-                                                                    'rn3wa', 'ud3b']):
+            for sp in (['rn3', 'ud3'] if not thorough else ['rn3', 'ud3', 'rn3w2',
+                                                           'rn3wa', 'ud3b']):
                 for s in sig:
                     cfgs.append({'kind': 'derived', 'der': kind, 'name': b, 'space': sp,
                                  'sigma': s, 'sk': 'scalar'})
